@@ -32,9 +32,9 @@ pub fn compare<T: DeserializeOwned + PartialEq + Debug>(doc: &str, script: &Scri
     }
 }
 
-pub const C14_TARGETS: [&str; 25] = [
+pub const C14_TARGETS: [&str; 27] = [
     "SAttr", "SReq", "SLists", "SText", "STextList", "Ch", "SValue", "SValueVec", "SValueTuple", "SValueString", "NStr", "NStruct", "UnitS", "SPrims",
-    "UnitOnly", "SEnumFields", "SNestedSeq", "BVec<Ch>", "BVec<String>", "BVec<Option<String>>", "(String,u8)", "Option<SAttr>", "()", "BMap", "String",
+    "UnitOnly", "SEnumFields", "SNestedSeq", "BVec<Ch>", "BVec<String>", "BVec<Option<String>>", "(String,u8)", "Option<SAttr>", "()", "BMap", "String", "SOptHolder", "SOptValue",
 ];
 
 pub fn compare_target(t: usize, doc: &str, script: &Script) -> Result<bool, String> {
@@ -64,6 +64,8 @@ pub fn compare_target(t: usize, doc: &str, script: &Script) -> Result<bool, Stri
         22 => compare::<()>(doc, script),
         23 => compare::<BMap>(doc, script),
         24 => compare::<String>(doc, script),
+        25 => compare::<SOptHolder>(doc, script),
+        26 => compare::<SOptValue>(doc, script),
         _ => Err("bad target".into()),
     }
 }
@@ -237,6 +239,60 @@ pub fn run(ctx: &Ctx) {
         }
     });
     stretch_layer(ctx);
+    ns_layer(ctx);
+}
+
+/// Namespace scopes under skipping: the only place the deserializer resolves names is `xsi:nil`; whether
+/// the prefix is bound to the XSI namespace at that point depends on every scope opened and closed by
+/// the skips before it (unknown elements that re-bind or un-bind the prefix, with an element or a text
+/// as first child, nil elements with content).
+const XSI_NS: &str = "http://www.w3.org/2001/XMLSchema-instance";
+fn ns_tokens() -> Vec<String> {
+    vec![
+        "<zz xmlns:xsi=\"bogus\"><y/></zz>".into(),
+        "<zz xmlns:xsi=\"bogus\">q</zz>".into(),
+        "<zz><y xmlns:xsi=\"bogus\"><w/></y></zz>".into(),
+        format!("<zz xmlns:xsi=\"{}\"><y/><y/></zz>", XSI_NS),
+        "<a xsi:nil=\"true\"/>".into(),
+        "<a xsi:nil=\"true\"><y/>t</a>".into(),
+        "<a>t</a>".into(),
+        "<b xsi:nil=\"true\">1</b>".into(),
+        "<b>1</b>".into(),
+        format!("<a xmlns:xsi=\"{}\" xsi:nil=\"1\"><y xmlns:xsi=\"bogus\"/></a>", XSI_NS),
+        "<zz xmlns:xsi=\"\"/>".into(),
+    ]
+}
+
+fn ns_layer(ctx: &Ctx) {
+    let toks = ns_tokens();
+    let k = toks.len() as u64;
+    let n = ctx.tier.pick(3, 4);
+    let targets = [0usize, 2, 21, 25];
+    ctx.layer("namespace_scopes_under_skips", 4, count_upto(k, n) * 2, json!({"children": toks, "max_children": n, "roots": [format!("<r xmlns:xsi=\"{}\">", XSI_NS), "<r>".to_string()], "targets": targets.iter().map(|&t| C14_TARGETS[t]).collect::<Vec<_>>(), "schedules": ["whole", "pieces of 1", "pieces of 7", "pieces of 64"]}), |i, acc| {
+        let mut d = Vec::new();
+        decode_upto(k, n, i / 2, &mut d);
+        let mut doc = if i % 2 == 0 { format!("<r xmlns:xsi=\"{}\">", XSI_NS) } else { "<r>".to_string() };
+        for &x in &d {
+            doc.push_str(&toks[x as usize]);
+        }
+        doc.push_str("</r>");
+        for &tt in &targets {
+            for sc in [Script::whole(), Script::pieces(1), Script::pieces(7), Script::pieces(64)] {
+                acc.evaluations += 1;
+                acc.traces += 1;
+                acc.transitions += 2;
+                match compare_target(tt, &doc, &sc) {
+                    Ok(ok) => {
+                        if ok {
+                            acc.nt_count += 1;
+                        }
+                        acc.state(h64(&(tt, ok, 4u8)));
+                    }
+                    Err(what) => acc.violation((4, i), format!("{:?} as {} with reader schedule {}: {}", doc, C14_TARGETS[tt], sc.to_json(), what), json!({"doc": doc, "target": tt, "script": sc.to_json()})),
+                }
+            }
+        }
+    });
 }
 
 /// Size thresholds (the reader path owns its events and reuses one buffer across look-ahead and
